@@ -1,7 +1,1056 @@
-//! C19 — not built yet (stub).
+//! C19 — Recursive resolution ignores out-of-bailiwick data and always terminates.
+//!
+//! `recursor`: the real `hickory_resolver::recursor::Recursor` runs over the discrete-event
+//! runtime (`crate::sim`) against a simulated internet whose authoritative servers are the
+//! reference model in `refm::authsim` (RFC 1034 §4.3.2; not hickory's server). Hostile servers
+//! append out-of-bailiwick records carrying a poison marker. The oracle looks only at what comes
+//! back from `resolve()`, at the exchange log of the simulated network and at later answers.
+//!
+//! `stub_alias`: `CachingClient` over a scripted upstream with CNAME / SRV alias graphs.
 
-use crate::core::Check;
+use std::cell::RefCell;
+use std::collections::{BTreeMap, BTreeSet, VecDeque};
+use std::io;
+use std::net::{IpAddr, Ipv4Addr, SocketAddr};
+use std::rc::Rc;
+use std::sync::atomic::{AtomicU64, Ordering};
+use std::sync::Arc;
+use std::time::{Duration, Instant};
+
+use futures_util::stream;
+use hickory_net::xfer::DnsHandle;
+use hickory_net::{DnsError, NetError, NoRecords};
+use hickory_proto::op::{DnsRequest, DnsRequestOptions, DnsResponse, Message, OpCode, Query, ResponseCode};
+use hickory_proto::rr::rdata::{A, CNAME, NS, SOA, SRV, TXT};
+use hickory_proto::rr::{Name, RData, Record, RecordType};
+use hickory_resolver::caching_client::CachingClient;
+use hickory_resolver::recursor::{QNameMinimization, Recursor, RecursorError, RecursorOptions};
+use ipnet::IpNet;
+use proptest::collection::vec;
+use proptest::prelude::*;
+use serde::{Deserialize, Serialize};
+
+use crate::core::{prop_hang, CaseResult, Check, Fail, Rec};
+use crate::gen::internet::{self, Cfg, NetCase, NetSel, QTarget};
+use crate::refm::authsim::{self as sim_ref, build_world, child, has_marker, is_poison_ip, Dn, Ip, Qt, Rcode, Rd, Resp, Rr, World, TTL};
+use crate::sim::{RecvPoll, Sim, SimError, SimNet, SimRt};
+
+// ---------------------------------------------------------------------------------------------
+// conversions between the model's plain names/records and hickory's wire types (codec only)
+
+fn dn_of(n: &Name) -> Dn {
+    let s = n.to_ascii().to_ascii_lowercase();
+    if s.is_empty() {
+        ".".to_string()
+    } else if s.ends_with('.') {
+        s
+    } else {
+        format!("{s}.")
+    }
+}
+
+fn name_of(d: &str) -> Name {
+    Name::from_ascii(d).expect("model names are valid")
+}
+
+fn qt_of(t: RecordType) -> Qt {
+    match t {
+        RecordType::A => Qt::A,
+        RecordType::AAAA => Qt::Aaaa,
+        RecordType::NS => Qt::Ns,
+        RecordType::CNAME => Qt::Cname,
+        RecordType::TXT => Qt::Txt,
+        RecordType::SOA => Qt::Soa,
+        _ => Qt::Other,
+    }
+}
+
+const QTYPES: [RecordType; 5] = [RecordType::A, RecordType::AAAA, RecordType::NS, RecordType::CNAME, RecordType::TXT];
+
+fn record_of(r: &Rr) -> Record {
+    let rdata = match &r.rd {
+        Rd::A(ip) => RData::A(A(Ipv4Addr::from(*ip))),
+        Rd::Ns(n) => RData::NS(NS(name_of(n))),
+        Rd::Cname(n) => RData::CNAME(CNAME(name_of(n))),
+        Rd::Soa(m) => RData::SOA(SOA::new(name_of(m), name_of(&child("hostmaster", &r.owner)), 1, 3600, 600, 86400, 300)),
+        Rd::Txt(t) => RData::TXT(TXT::new(vec![t.clone()])),
+        Rd::Other(_) => unreachable!("the model never emits Other"),
+    };
+    Record::from_rdata(name_of(&r.owner), TTL, rdata)
+}
+
+fn rr_of(r: &Record) -> Rr {
+    let rd = match &r.data {
+        RData::A(A(ip)) => Rd::A(ip.octets()),
+        RData::NS(NS(n)) => Rd::Ns(dn_of(n)),
+        RData::CNAME(CNAME(n)) => Rd::Cname(dn_of(n)),
+        RData::SOA(s) => Rd::Soa(dn_of(&s.mname)),
+        RData::TXT(t) => Rd::Txt(
+            t.txt_data
+                .iter()
+                .map(|b| String::from_utf8_lossy(b).into_owned())
+                .collect::<Vec<_>>()
+                .join(""),
+        ),
+        other => Rd::Other(format!("{other:?}")),
+    };
+    Rr {
+        owner: dn_of(&r.name),
+        rd,
+    }
+}
+
+/// access-list semantics from the rustdoc table of `AccessControlSet`: denied iff inside some
+/// deny network and inside no allow network (own prefix arithmetic, not hickory's trie)
+fn in_net(ip: Ip, n: &NetSel) -> bool {
+    let a = u32::from_be_bytes(ip);
+    let b = u32::from_be_bytes(n.addr);
+    let mask = if n.len == 0 { 0 } else { u32::MAX << (32 - n.len as u32) };
+    (a & mask) == (b & mask)
+}
+
+fn denied(ip: Ip, deny: &[NetSel], allow: &[NetSel]) -> bool {
+    deny.iter().any(|n| in_net(ip, n)) && !allow.iter().any(|n| in_net(ip, n))
+}
+
+fn ipnet_of(n: &NetSel) -> IpNet {
+    // host bits cleared, so every implementation agrees on what the network is
+    let a = u32::from_be_bytes(n.addr);
+    let mask = if n.len == 0 { 0 } else { u32::MAX << (32 - n.len as u32) };
+    IpNet::new(IpAddr::V4(Ipv4Addr::from(a & mask)), n.len).expect("prefix length <= 32")
+}
+
+// ---------------------------------------------------------------------------------------------
+// the simulated network
+
+#[derive(Clone, Debug)]
+struct Exch {
+    ip: IpAddr,
+    port: u16,
+    qname: Dn,
+    qt: Qt,
+    /// what the server did: "answer", "referral", "nxdomain", "nodata", "refused", "servfail", "silent", "poison-server", "unknown"
+    what: &'static str,
+    poison: usize,
+    poison_rrs: Vec<(u8, Rr)>,
+    /// answering server (index) and every address record its response carried, any section
+    server: Option<usize>,
+    addrs: Vec<(Dn, Ip)>,
+}
+
+struct Sock {
+    /// (virtual time at which the datagram arrives, bytes, source)
+    inbox: VecDeque<(u64, Vec<u8>, SocketAddr)>,
+}
+
+#[derive(Default)]
+struct NetState {
+    next: u64,
+    socks: BTreeMap<u64, Sock>,
+    log: Vec<Exch>,
+    harness_err: Option<String>,
+}
+
+struct Net {
+    world: Rc<World>,
+    /// per-server round-trip time in milliseconds is `latency_ms * (server index % 3)`
+    latency_ms: u64,
+    st: RefCell<NetState>,
+}
+
+impl Net {
+    fn respond(&self, req: &Message, q: &Query, resp: &Resp) -> Vec<u8> {
+        let mut m = Message::response(req.id, OpCode::Query);
+        // echo the question exactly as sent (0x20 case randomisation must survive)
+        m.add_query(q.clone());
+        m.metadata.authoritative = resp.aa;
+        m.metadata.recursion_desired = req.recursion_desired;
+        m.metadata.response_code = match resp.rcode {
+            Rcode::NoError => ResponseCode::NoError,
+            Rcode::NxDomain => ResponseCode::NXDomain,
+            Rcode::Refused => ResponseCode::Refused,
+            Rcode::ServFail => ResponseCode::ServFail,
+        };
+        m.add_answers(resp.answers.iter().map(record_of));
+        m.add_authorities(resp.authority.iter().map(record_of));
+        m.add_additionals(resp.additional.iter().map(record_of));
+        m.to_vec().expect("model responses encode")
+    }
+}
+
+impl SimNet for Net {
+    fn udp_bind(&self, _local: SocketAddr, _server: SocketAddr) -> io::Result<u64> {
+        let mut st = self.st.borrow_mut();
+        st.next += 1;
+        let id = st.next;
+        st.socks.insert(id, Sock { inbox: VecDeque::new() });
+        Ok(id)
+    }
+
+    fn udp_send(&self, sock: u64, buf: &[u8], target: SocketAddr) -> io::Result<usize> {
+        let mut st = self.st.borrow_mut();
+        let req = match Message::from_vec(buf) {
+            Ok(m) => m,
+            Err(e) => {
+                st.harness_err = Some(format!("undecodable query from the recursor: {e}"));
+                return Ok(buf.len());
+            }
+        };
+        let Some(q) = req.queries.first().cloned() else {
+            st.harness_err = Some("query without question".into());
+            return Ok(buf.len());
+        };
+        let qname = dn_of(&q.name);
+        let qt = qt_of(q.query_type);
+        let mut ex = Exch {
+            ip: target.ip(),
+            port: target.port(),
+            qname: qname.clone(),
+            qt,
+            what: "unknown",
+            poison: 0,
+            poison_rrs: vec![],
+            server: None,
+            addrs: vec![],
+        };
+        let reply: Option<Vec<u8>> = match target.ip() {
+            IpAddr::V4(v4) if target.port() == 53 => {
+                let ip = v4.octets();
+                if let Some(s) = self.world.server_by_ip(ip) {
+                    match sim_ref::answer(&self.world, s, &qname, qt) {
+                        None => {
+                            ex.what = "silent";
+                            None
+                        }
+                        Some(resp) => {
+                            ex.poison = resp.poison;
+                            ex.poison_rrs = resp.poison_rrs.clone();
+                            ex.server = Some(s);
+                            for r in resp.answers.iter().chain(&resp.authority).chain(&resp.additional) {
+                                if let Rd::A(ip) = r.rd {
+                                    ex.addrs.push((r.owner.clone(), ip));
+                                }
+                            }
+                            ex.what = match resp.rcode {
+                                Rcode::Refused => "refused",
+                                Rcode::ServFail => "servfail",
+                                Rcode::NxDomain => "nxdomain",
+                                Rcode::NoError if resp.referral => "referral",
+                                Rcode::NoError if resp.answers.is_empty() => "nodata",
+                                Rcode::NoError => "answer",
+                            };
+                            Some(self.respond(&req, &q, &resp))
+                        }
+                    }
+                } else if is_poison_ip(ip) {
+                    // whoever is reached through poisoned data keeps lying
+                    ex.what = "poison-server";
+                    let mut resp = Resp {
+                        rcode: Rcode::NoError,
+                        aa: true,
+                        answers: vec![],
+                        authority: vec![],
+                        additional: vec![],
+                        referral: false,
+                        poison: 1,
+                        poison_rrs: vec![],
+                    };
+                    match qt {
+                        Qt::A => resp.answers.push(Rr {
+                            owner: qname.clone(),
+                            rd: Rd::A([203, 0, 113, 250]),
+                        }),
+                        Qt::Ns => resp.answers.push(Rr {
+                            owner: qname.clone(),
+                            rd: Rd::Ns("deep.poison.".into()),
+                        }),
+                        _ => {}
+                    }
+                    Some(self.respond(&req, &q, &resp))
+                } else {
+                    None
+                }
+            }
+            _ => None,
+        };
+        st.log.push(ex);
+        if let Some(bytes) = reply {
+            match st.socks.get_mut(&sock) {
+                Some(s) => {
+                    let idx = match target.ip() {
+                        IpAddr::V4(v4) => v4.octets()[2] as u64 % 3,
+                        _ => 0,
+                    };
+                    s.inbox.push_back((crate::sim::now_nanos() + self.latency_ms * idx * 1_000_000, bytes, target))
+                }
+                None => st.harness_err = Some(format!("send on unknown socket {sock}")),
+            }
+        }
+        Ok(buf.len())
+    }
+
+    fn udp_poll_recv(&self, sock: u64, now: u64) -> RecvPoll {
+        let mut st = self.st.borrow_mut();
+        let Some(s) = st.socks.get_mut(&sock) else {
+            return RecvPoll::Never;
+        };
+        match s.inbox.front() {
+            Some((at, _, _)) if *at <= now => {
+                let (_, b, src) = s.inbox.pop_front().unwrap();
+                RecvPoll::Ready(b, src)
+            }
+            Some((at, _, _)) => RecvPoll::At(*at),
+            None => RecvPoll::Never,
+        }
+    }
+
+    fn udp_drop(&self, sock: u64) {
+        if let Ok(mut st) = self.st.try_borrow_mut() {
+            st.socks.remove(&sock);
+        }
+    }
+}
+
+// ---------------------------------------------------------------------------------------------
+// unbounded recursion without I/O ends in a stack overflow, which no catch_unwind sees: turn the
+// fatal signal into a proper VIOLATION (replay file + line on stdout + exit 1). Termination is
+// the claim of this property, so dying of recursion depth is a deviation, not a harness accident.
+
+mod crash {
+    use std::cell::Cell;
+    use std::ffi::CString;
+    use std::sync::OnceLock;
+
+    thread_local! {
+        static CASE: Cell<(*const u8, usize, u8)> = const { Cell::new((std::ptr::null(), 0, 0)) };
+    }
+
+    struct Paths {
+        replay: [CString; 2],
+        evidence: CString,
+    }
+    static PATHS: OnceLock<Paths> = OnceLock::new();
+    const SUBS: [&str; 2] = ["recursor", "stub_alias"];
+
+    pub struct Guard {
+        _json: String,
+    }
+
+    impl Drop for Guard {
+        fn drop(&mut self) {
+            let _ = CASE.try_with(|c| c.set((std::ptr::null(), 0, 0)));
+        }
+    }
+
+    /// remember the running case (already serialised) for the signal handler
+    pub fn enter<T: serde::Serialize>(sub: u8, case: &T) -> Guard {
+        PATHS.get_or_init(|| {
+            let dir = crate::core::vpath("replays/C19/found");
+            let _ = std::fs::create_dir_all(&dir);
+            let _ = std::fs::create_dir_all(crate::core::vpath("evidence"));
+            let p = Paths {
+                replay: [
+                    CString::new(format!("{dir}/recursor-fatal-signal-stack-overflow.json")).unwrap(),
+                    CString::new(format!("{dir}/stub_alias-fatal-signal-stack-overflow.json")).unwrap(),
+                ],
+                evidence: CString::new(crate::core::vpath("evidence/C19.json")).unwrap(),
+            };
+            // SAFETY: installing a signal handler that only uses async-signal-safe calls
+            unsafe {
+                let mut sa: libc::sigaction = std::mem::zeroed();
+                sa.sa_sigaction = handler as *const () as usize;
+                sa.sa_flags = libc::SA_SIGINFO | libc::SA_ONSTACK;
+                libc::sigemptyset(&mut sa.sa_mask);
+                libc::sigaction(libc::SIGSEGV, &sa, std::ptr::null_mut());
+                libc::sigaction(libc::SIGBUS, &sa, std::ptr::null_mut());
+            }
+            p
+        });
+        let json = serde_json::to_string(case).unwrap_or_else(|_| "null".into());
+        CASE.with(|c| c.set((json.as_ptr(), json.len(), sub)));
+        Guard { _json: json }
+    }
+
+    unsafe fn put(fd: libc::c_int, b: &[u8]) {
+        let mut off = 0;
+        while off < b.len() {
+            let n = libc::write(fd, b[off..].as_ptr() as *const libc::c_void, b.len() - off);
+            if n <= 0 {
+                break;
+            }
+            off += n as usize;
+        }
+    }
+
+    extern "C" fn handler(sig: libc::c_int, _info: *mut libc::siginfo_t, _ctx: *mut libc::c_void) {
+        // SAFETY: open/write/close/_exit/signal are async-signal-safe; the case buffer is owned by
+        // the Guard of the frame that is still on the (overflowed) stack of this thread.
+        unsafe {
+            let (p, n, sub) = CASE.try_with(|c| c.get()).unwrap_or((std::ptr::null(), 0, 0));
+            let Some(paths) = PATHS.get() else {
+                libc::signal(sig, libc::SIG_DFL);
+                return;
+            };
+            if p.is_null() {
+                // not inside a C19 case: behave as if we were never here
+                libc::signal(sig, libc::SIG_DFL);
+                return;
+            }
+            let sub = (sub as usize).min(1);
+            let case = std::slice::from_raw_parts(p, n);
+            let fd = libc::open(paths.replay[sub].as_ptr(), libc::O_CREAT | libc::O_WRONLY | libc::O_TRUNC, 0o644);
+            if fd >= 0 {
+                put(fd, b"{\"property\":\"C19\",\"sub\":\"");
+                put(fd, SUBS[sub].as_bytes());
+                put(fd, b"\",\"signature\":\"fatal-signal-stack-overflow\",\"message\":\"the case died of SIGSEGV/SIGBUS (unbounded recursion overflowing the stack)\",\"expect\":\"violation\",\"case\":");
+                put(fd, case);
+                put(fd, b"}\n");
+                libc::close(fd);
+            }
+            let fd = libc::open(paths.evidence.as_ptr(), libc::O_CREAT | libc::O_WRONLY | libc::O_TRUNC, 0o644);
+            if fd >= 0 {
+                put(fd, b"{\"property_id\":\"C19\",\"tier\":\"quick\",\"seed\":0,\"level\":\"exploration\",\"coverage\":{\"evaluations\":1,\"distinct_nontrivial\":0,\"rule\":\"aborted: fatal signal (stack overflow) inside a case\",\"samples\":[]},\"wall_s\":0.0,\"violations\":1}\n");
+                libc::close(fd);
+            }
+            put(1, b"VIOLATION property=C19 replay=");
+            put(1, paths.replay[sub].as_bytes());
+            put(1, b"\n  sub=");
+            put(1, SUBS[sub].as_bytes());
+            put(1, b" sig=fatal-signal-stack-overflow the case died of SIGSEGV/SIGBUS: unbounded recursion overflowed the stack (resolution did not terminate)\n");
+            libc::_exit(1);
+        }
+    }
+}
+
+// ---------------------------------------------------------------------------------------------
+// what a resolution handed back
+
+fn returned_records(res: &Result<Message, RecursorError>) -> (Vec<(&'static str, Rr)>, &'static str) {
+    let mut out = Vec::new();
+    let kind;
+    match res {
+        Ok(m) => {
+            kind = if m.answers.is_empty() { "ok-empty" } else { "ok-answer" };
+            out.extend(m.answers.iter().map(|r| ("answer", rr_of(r))));
+            out.extend(m.authorities.iter().map(|r| ("authority", rr_of(r))));
+            out.extend(m.additionals.iter().map(|r| ("additional", rr_of(r))));
+        }
+        Err(RecursorError::Negative(a)) => {
+            kind = if a.nx_domain { "err-nxdomain" } else { "err-nodata" };
+            if let Some(soa) = &a.soa {
+                out.push(("error-soa", Rr { owner: dn_of(&soa.name), rd: Rd::Soa(dn_of(&soa.data.mname)) }));
+            }
+            for r in a.authorities.iter().flat_map(|x| x.iter()) {
+                out.push(("error-authority", rr_of(r)));
+            }
+        }
+        Err(RecursorError::ForwardNS(list)) => {
+            kind = "err-forward-ns";
+            for f in list.iter() {
+                out.push(("error-referral", rr_of(&f.ns)));
+                out.extend(f.glue.iter().map(|r| ("error-referral", rr_of(r))));
+            }
+        }
+        Err(RecursorError::Net(NetError::Dns(DnsError::NoRecordsFound(nr)))) => {
+            kind = "err-net-norecords";
+            let NoRecords { soa, ns, authorities, .. } = nr;
+            if let Some(soa) = soa {
+                out.push(("error-soa", Rr { owner: dn_of(&soa.name), rd: Rd::Soa(dn_of(&soa.data.mname)) }));
+            }
+            for f in ns.iter().flat_map(|x| x.iter()) {
+                out.push(("error-referral", rr_of(&f.ns)));
+                out.extend(f.glue.iter().map(|r| ("error-referral", rr_of(r))));
+            }
+            for r in authorities.iter().flat_map(|x| x.iter()) {
+                out.push(("error-authority", rr_of(r)));
+            }
+        }
+        Err(RecursorError::RecursionLimitExceeded { .. }) => kind = "err-recursion-limit",
+        Err(RecursorError::MaxRecordLimitExceeded { .. }) => kind = "err-cname-limit",
+        Err(RecursorError::Timeout) => kind = "err-timeout",
+        Err(RecursorError::Net(NetError::Timeout)) => kind = "err-timeout",
+        Err(RecursorError::Net(_)) => kind = "err-net",
+        Err(_) => kind = "err-other",
+    }
+    (out, kind)
+}
+
+fn query_name(w: &World, t: &QTarget) -> Dn {
+    let nz = w.zones.len();
+    let pick = |z: u8| if nz > 1 { 1 + z as usize % (nz - 1) } else { 0 };
+    match t {
+        QTarget::Data { zone, label } => {
+            // mostly names that exist, sometimes any slot (NXDOMAIN / NODATA paths)
+            let zi = pick(*zone);
+            let zname = &w.zones[zi].name;
+            let existing: Vec<&Dn> = w.zones[zi].data.keys().filter(|o| *o != zname).collect();
+            if !existing.is_empty() && *label % 4 != 3 {
+                existing[*label as usize % existing.len()].clone()
+            } else {
+                sim_ref::data_name(&w.zones, *zone, *label).1
+            }
+        }
+        QTarget::Apex { zone } => w.zones[pick(*zone)].name.clone(),
+        QTarget::NsHost { zone, k } => {
+            let z = &w.zones[*zone as usize % nz];
+            z.ns[*k as usize % z.ns.len()].host.clone()
+        }
+        QTarget::Nx { zone } => child("nx", &w.zones[pick(*zone)].name),
+        QTarget::Chain { chain, offset } => {
+            let chains: Vec<&Vec<Dn>> = w.chains.iter().filter(|c| !c.is_empty()).collect();
+            if chains.is_empty() {
+                sim_ref::data_name(&w.zones, *chain, *offset).1
+            } else {
+                let c = chains[*chain as usize % chains.len()];
+                c[*offset as usize % c.len()].clone()
+            }
+        }
+        QTarget::Hosted { server, label } => {
+            // prefer servers that actually have something to inject
+            let armed: Vec<usize> = (0..w.servers.len()).filter(|s| !w.servers[*s].poison.is_empty()).collect();
+            let si = if armed.is_empty() { *server as usize % w.servers.len() } else { armed[*server as usize % armed.len()] };
+            let z = w.servers[si]
+                .delegated
+                .iter()
+                .filter(|z| **z != 0)
+                .max_by_key(|z| sim_ref::depth(&w.zones[**z].name))
+                .copied()
+                .unwrap_or(pick(*server));
+            let zname = &w.zones[z].name;
+            let existing: Vec<&Dn> = w.zones[z].data.keys().filter(|o| *o != zname).collect();
+            if !existing.is_empty() && *label % 4 != 3 {
+                existing[*label as usize % existing.len()].clone()
+            } else {
+                child(sim_ref::DATA_LABELS[*label as usize % sim_ref::DATA_LABELS.len()], zname)
+            }
+        }
+    }
+}
+
+/// Structural bound on datagrams per `resolve()`.
+///
+/// One `resolve()` follows at most `recursion_limit` aliases (+1 for the name itself); every
+/// alias target costs one name-server discovery plus one final lookup. A discovery processes at
+/// most `ns_recursion_limit` uncached labels along any nesting path, and what it can ask about
+/// is limited by the universe: every zone cut and every name-server host is looked up (NS, A,
+/// AAAA) at most once per discovery thanks to the caches, each lookup being up to 3
+/// transmissions to a server. Hence 3 * (r+1) * (n+1) * (zones + servers): linear in each
+/// configured limit and in the universe size. On the unchanged tree the observed maximum over
+/// 120k generated cases was 23 datagrams (limits 6/6, 16 zones+servers: bound 2352; smallest
+/// bound, limits 2/2 and 4 zones+servers: 108), so the clause is blind to small excesses and
+/// fires on explosive or unbounded recursion only.
+fn q_max(cfg: &Cfg, w: &World) -> u64 {
+    let r = cfg.recursion_limit as u64 + 1;
+    let n = cfg.ns_recursion_limit as u64 + 1;
+    3 * r * n * (w.zones.len() + w.servers.len()) as u64
+}
+
+const EVENT_BUDGET: u64 = 200_000;
+
+fn net_body(c: &NetCase, rec: &mut Rec) -> CaseResult {
+    let _crash = crash::enter(0, c);
+    let world = Rc::new(build_world(&c.net));
+    match scenario(c, world.clone(), rec) {
+        Err(f) if f.sig == "contacted-poison-address" => {
+            // Attribution by counterfactual: run the same case once more with hostile servers
+            // leaving the *answer section of address lookups for name-server host names* alone.
+            // If the deviation disappears, its root cause is that one path
+            // (append_ips_from_lookup takes every address in such an answer section, whoever owns
+            // the record) and it gets that path's signature; otherwise it stays a generic violation.
+            let mut w2 = (*world).clone();
+            w2.spare_ns_address_answers = true;
+            match scenario(c, Rc::new(w2), &mut Rec::default()) {
+                Ok(()) => Err(Fail::new("ns-address-taken-from-unrelated-answer-record", f.msg)),
+                Err(f2) if f2.sig == "oob-record-in-negative-answer-authority" => Err(Fail::new("ns-address-taken-from-unrelated-answer-record", f.msg)),
+                Err(_) => Err(f),
+            }
+        }
+        r => r,
+    }
+}
+
+fn scenario(c: &NetCase, world: Rc<World>, rec: &mut Rec) -> CaseResult {
+    let w = &*world;
+    let roots: Vec<IpAddr> = w.root_ips().into_iter().map(|ip| IpAddr::V4(Ipv4Addr::from(ip))).collect();
+    let root_set: BTreeSet<Ip> = w.root_ips().into_iter().collect();
+
+    // ---- configuration ------------------------------------------------------------------------
+    let cfg = &c.cfg;
+    let opts = RecursorOptions {
+        recursion_limit: cfg.recursion_limit,
+        ns_recursion_limit: cfg.ns_recursion_limit,
+        deny_server: cfg.deny_server.iter().map(ipnet_of).collect(),
+        allow_server: cfg.allow_server.iter().map(ipnet_of).collect(),
+        deny_answers: cfg.deny_answers.iter().map(ipnet_of).collect(),
+        allow_answers: cfg.allow_answers.iter().map(ipnet_of).collect(),
+        qname_minimization: if cfg.relaxed_qmin { QNameMinimization::Relaxed } else { QNameMinimization::Strict },
+        case_randomization: cfg.case_randomization,
+        ..RecursorOptions::default()
+    };
+
+    let _det = crate::detrand::DetRand::start(0xC19_0000 + c.os_seed);
+    let mut sim = Sim::new(1_700_000_000);
+    let net = Rc::new(Net {
+        world: world.clone(),
+        latency_ms: c.latency_ms as u64,
+        st: RefCell::new(NetState::default()),
+    });
+    sim.set_net(net.clone());
+    let recursor = match Recursor::with_options(&roots, opts, SimRt) {
+        Ok(r) => Rc::new(r),
+        Err(e) => {
+            rec.discard(format!("recursor-construction-failed: {e}"));
+            return Ok(());
+        }
+    };
+
+    // ---- the queries: generated ones, then follow-ups about every victim -----------------------
+    let mut queries: Vec<(Dn, RecordType, bool)> = Vec::new();
+    for q in c.queries.iter().take(4) {
+        queries.push((query_name(w, &q.target), QTYPES[q.qt as usize % QTYPES.len()], false));
+    }
+    let mut follow: Vec<(Dn, RecordType, bool)> = Vec::new();
+    for s in &w.servers {
+        for p in &s.poison {
+            if p.victim_is_zone {
+                follow.push((p.victim.clone(), RecordType::NS, true));
+                follow.push((child("w", &p.victim), RecordType::A, true));
+            } else {
+                follow.push((p.victim.clone(), RecordType::A, true));
+                follow.push((p.victim.clone(), RecordType::CNAME, true));
+            }
+        }
+    }
+    follow.truncate(8);
+    queries.extend(follow);
+
+    let qmax = q_max(cfg, w);
+    let mut poison_delivered = 0usize;
+    let mut lame_seen = false;
+    let mut max_dgrams = 0u64;
+    let mut notes: Vec<String> = Vec::new();
+    let mut deferred: Option<Fail> = None;
+
+    for (qi, (qname, qtype, is_follow)) in queries.iter().enumerate() {
+        let log_start = net.st.borrow().log.len();
+        let r2 = recursor.clone();
+        let query = Query::new(name_of(qname), *qtype);
+        let res = sim.run(async move { r2.resolve(query, Instant::now(), false).await }, EVENT_BUDGET);
+        if let Some(e) = net.st.borrow_mut().harness_err.take() {
+            vfail!("harness-error", "simulated network: {e}");
+        }
+        let exch: Vec<Exch> = net.st.borrow().log[log_start..].to_vec();
+        let dgrams = exch.len() as u64;
+        max_dgrams = max_dgrams.max(dgrams);
+        poison_delivered += exch.iter().map(|e| e.poison).sum::<usize>();
+        lame_seen |= exch.iter().any(|e| matches!(e.what, "refused" | "servfail" | "silent"));
+        let ctx = |extra: &str| {
+            let tail: Vec<String> = exch
+                .iter()
+                .rev()
+                .take(12)
+                .rev()
+                .map(|e| format!("{}<-{} {:?} [{}{}]", e.ip, e.qname, e.qt, e.what, if e.poison > 0 { " +poison" } else { "" }))
+                .collect();
+            format!(
+                "query #{qi} {qname} {qtype}{}: {extra}; {} datagrams, last: {}",
+                if *is_follow { " (follow-up)" } else { "" },
+                exch.len(),
+                tail.join(" | ")
+            )
+        };
+
+        // (c) termination and the query bound
+        let res = match res {
+            Ok(r) => r,
+            Err(SimError::Budget) => {
+                // the simulated network schedules at most one timer per datagram it answers, so an
+                // exhausted budget means the recursor keeps sending or sleeping: non-termination
+                // within 200k timer events (the claim is termination, so this is a violation)
+                vfail!("resolve-did-not-terminate", "{}", ctx("event budget exhausted"));
+            }
+            Err(SimError::Deadlock) => {
+                // no timer and nothing runnable: a lost wake-up, most likely in the harness
+                vfail!("harness-deadlock", "{}", ctx("simulation deadlocked (no timer, no runnable task)"));
+            }
+        };
+        vensure!(
+            dgrams <= qmax,
+            "upstream-queries-exceed-structural-bound",
+            "{}",
+            ctx(&format!("{dgrams} upstream datagrams > Q_max {qmax} (recursion_limit {}, ns_recursion_limit {})", cfg.recursion_limit, cfg.ns_recursion_limit))
+        );
+        // alias hops: names of the true CNAME chain starting at the query name that were asked
+        // upstream with the original type; resolve() nests once per alias followed, at most
+        // `recursion_limit` deep (one extra hop of slack: the claim is "bounded", not "exact")
+        {
+            let mut chain: Vec<Dn> = vec![qname.clone()];
+            let mut cur = qname.clone();
+            loop {
+                let z = &w.zones[w.zone_of_name(&cur)];
+                match z.data.get(&cur).and_then(|r| r.first()) {
+                    Some(Rd::Cname(t)) if !chain.contains(t) => {
+                        chain.push(t.clone());
+                        cur = t.clone();
+                    }
+                    _ => break,
+                }
+            }
+            let asked: BTreeSet<&Dn> = exch.iter().filter(|e| e.qt == qt_of(*qtype) && chain.contains(&e.qname)).map(|e| &e.qname).collect();
+            vensure!(
+                asked.len() <= cfg.recursion_limit as usize + 1,
+                "alias-hops-exceed-recursion-limit",
+                "{}",
+                ctx(&format!("{} distinct alias targets queried upstream, recursion_limit {}", asked.len(), cfg.recursion_limit))
+            );
+            if chain.len() > cfg.recursion_limit as usize + 1 {
+                rec.class("chain-longer-than-limit");
+            }
+        }
+
+        // (b) every contacted address is a real name server that the server filter permits
+        for (ei, e) in exch.iter().enumerate() {
+            let IpAddr::V4(v4) = e.ip else {
+                vfail!("contacted-unknown-address", "{}", ctx(&format!("datagram to {}", e.ip)));
+            };
+            let ip = v4.octets();
+            if is_poison_ip(ip) {
+                // where could the recursor have got this address from? (whole history of this Recursor)
+                let st = net.st.borrow();
+                let src = st
+                    .log
+                    .iter()
+                    .filter(|x| x.poison_rrs.iter().any(|(_, r)| r.rd == Rd::A(ip)))
+                    .map(|x| format!("{}<-{} {:?} {:?}", x.ip, x.qname, x.qt, x.poison_rrs))
+                    .collect::<Vec<_>>()
+                    .join(" | ");
+                drop(st);
+                vfail!("contacted-poison-address", "{}", ctx(&format!("datagram to poison address {}; delivered by: {src}", e.ip)));
+            }
+            vensure!(
+                w.server_by_ip(ip).is_some() && e.port == 53,
+                "contacted-unknown-address",
+                "{}",
+                ctx(&format!("datagram to {}:{} which is no name server", e.ip, e.port))
+            );
+            // provenance: a non-root server address must have reached the recursor, before this
+            // datagram, in an address record that its sender may speak for (owner inside a zone
+            // delegated to the sender) - true data too, not only marked poison: glue for a host
+            // outside the delegating zone's bailiwick has to be re-resolved, not used
+            if !root_set.contains(&ip) {
+                let st = net.st.borrow();
+                let legit = st.log[..log_start + ei].iter().any(|x| match x.server {
+                    Some(s) => x.addrs.iter().any(|(owner, a)| *a == ip && w.in_bailiwick_of_server(s, owner)),
+                    None => false,
+                });
+                drop(st);
+                vensure!(
+                    legit,
+                    "nameserver-address-without-in-bailiwick-source",
+                    "{}",
+                    ctx(&format!("datagram to {} although no server authoritative for the owner ever supplied that address", e.ip))
+                );
+            }
+            vensure!(
+                root_set.contains(&ip) || !denied(ip, &cfg.deny_server, &cfg.allow_server),
+                "contacted-denied-server",
+                "{}",
+                ctx(&format!("datagram to {} which deny_server forbids", e.ip))
+            );
+        }
+
+        // (a) nothing handed back is out-of-bailiwick data
+        let (records, kind) = returned_records(&res);
+        rec.class(format!("{}:{kind}", if *is_follow { "follow" } else { "query" }));
+        for (place, r) in &records {
+            // RecursorError::ForwardNS (and NoRecords::ns) is a diagnostic copy of a referral that
+            // no caller forwards or caches (hickory-server answers SERVFAIL for it); the property
+            // observes the returned Message, and of errors only what a front end hands on: the SOA
+            // and authority records of negative answers (LookupError::authorities / into_soa)
+            if *place == "error-referral" {
+                rec.class("referral-data-in-error");
+                continue;
+            }
+            if !w.truth.contains(r) {
+                let poison = w.injected.contains(r) || has_marker(r);
+                if poison && place.starts_with("error") {
+                    // one root cause (negative answers skip the bailiwick filter): keep checking the
+                    // rest of the case and report this deviation only if nothing else fails
+                    deferred.get_or_insert_with(|| {
+                        Fail::new(
+                            "oob-record-in-negative-answer-authority",
+                            ctx(&format!("the negative answer handed back carries {:?} ({place}), which the answering server is not authoritative for", r)),
+                        )
+                    });
+                    continue;
+                }
+                let sig = if poison { "poison-record-in-returned-message" } else { "unknown-record-returned" };
+                vfail!(sig, "{}", ctx(&format!("{place} section carries {:?}", r)));
+            }
+            if let Rd::A(ip) = r.rd {
+                if denied(ip, &cfg.deny_answers, &cfg.allow_answers) {
+                    let sig = if place.starts_with("error") { "denied-address-in-returned-error" } else { "denied-address-returned" };
+                    vfail!(sig, "{}", ctx(&format!("{place} section carries {:?} which deny_answers forbids", r)));
+                }
+            }
+        }
+        if rec.wants_note() && notes.len() < 6 {
+            notes.push(format!("{qname} {qtype} -> {kind} ({dgrams} dgrams)"));
+        }
+    }
+
+    drop(recursor);
+    drop(sim);
+
+    // ---- accounting ---------------------------------------------------------------------------
+    let f = &w.flags;
+    for (on, name) in [
+        (f.glueless, "glueless"),
+        (f.oob_glue, "oob-glue"),
+        (f.self_ref, "self-referential-delegation"),
+        (f.mutual, "glueless-cycle"),
+        (f.lame, "lame-by-construction"),
+        (lame_seen, "lame-or-dead-contacted"),
+        (f.cname_loop, "cname-loop"),
+        (f.out_of_zone_ns, "out-of-zone-ns"),
+        (f.max_chain >= 8, "cname-chain>=8"),
+        (poison_delivered > 0, "poison-delivered"),
+        (!cfg.deny_server.is_empty(), "deny-server"),
+        (!cfg.deny_answers.is_empty(), "deny-answers"),
+        (cfg.case_randomization, "case-randomization"),
+    ] {
+        if on {
+            rec.class(name);
+        }
+    }
+    rec.class(format!("zones:{}", w.zones.len()));
+    let bucket = match max_dgrams {
+        0..=4 => "<=4",
+        5..=16 => "<=16",
+        17..=64 => "<=64",
+        65..=256 => "<=256",
+        _ => ">256",
+    };
+    rec.class(format!("max-datagrams-per-resolve:{bucket}"));
+    rec.class(format!("qmax-headroom:{}", if max_dgrams * 4 <= qmax { ">=4x" } else if max_dgrams * 2 <= qmax { ">=2x" } else { "<2x" }));
+    rec.count("poison-records-delivered", poison_delivered as u64);
+    rec.count("resolutions", queries.len() as u64);
+    if poison_delivered > 0 || f.mutual || f.self_ref || f.cname_loop || f.glueless || f.lame || lame_seen {
+        rec.nontrivial();
+        if rec.wants_note() {
+            rec.note(format!(
+                "zones {:?}; servers {:?}; limits r{}/ns{}; {}",
+                w.zones.iter().map(|z| format!("{}[{}]", z.name, z.ns.iter().map(|n| format!("{}{}", n.host, if n.glue { "+g" } else { "" })).collect::<Vec<_>>().join(","))).collect::<Vec<_>>(),
+                w.servers.iter().map(|s| format!("{:?}{}", s.kind, if s.poison.is_empty() { String::new() } else { format!("x{}", s.poison.len()) })).collect::<Vec<_>>(),
+                cfg.recursion_limit,
+                cfg.ns_recursion_limit,
+                notes.join("; ")
+            ));
+        }
+    }
+    match deferred {
+        Some(f) => Err(f),
+        None => Ok(()),
+    }
+}
+
+// ---------------------------------------------------------------------------------------------
+// stub resolver: alias chasing in CachingClient
+
+#[derive(Clone, Debug, Serialize, Deserialize)]
+enum Node {
+    Cname(u8),
+    Srv(u8),
+    A,
+    NoData,
+    NxDomain,
+}
+
+#[derive(Clone, Debug, Serialize, Deserialize)]
+struct StubCase {
+    nodes: Vec<Node>,
+    start: u8,
+    /// how many alias records the upstream puts into one response (server-side chasing), 1..=20
+    per_response: u8,
+    /// query type: false = A, true = SRV
+    srv_query: bool,
+    preserve_intermediates: bool,
+    /// look the same name up again afterwards (cache path)
+    again: bool,
+}
+
+fn node_name(i: usize) -> Name {
+    Name::from_ascii(format!("n{i}.stub.test.")).unwrap()
+}
+
+#[derive(Clone)]
+struct Scripted {
+    nodes: Arc<Vec<Node>>,
+    per_response: usize,
+    calls: Arc<AtomicU64>,
+}
+
+impl DnsHandle for Scripted {
+    type Response = stream::Once<futures_util::future::Ready<Result<DnsResponse, NetError>>>;
+    type Runtime = SimRt;
+
+    fn send(&self, request: DnsRequest) -> Self::Response {
+        self.calls.fetch_add(1, Ordering::SeqCst);
+        let q = request.queries.first().cloned().expect("question");
+        let mut m = Message::response(request.id, OpCode::Query);
+        m.add_query(q.clone());
+        m.metadata.recursion_available = true;
+        // which node is asked about
+        let idx = (0..self.nodes.len()).find(|i| node_name(*i) == q.name);
+        match idx {
+            None => {
+                m.metadata.response_code = ResponseCode::NXDomain;
+            }
+            Some(mut i) => {
+                for _ in 0..self.per_response {
+                    match &self.nodes[i] {
+                        Node::Cname(t) => {
+                            let t = *t as usize % self.nodes.len();
+                            m.add_answer(Record::from_rdata(node_name(i), 60, RData::CNAME(CNAME(node_name(t)))));
+                            i = t;
+                        }
+                        Node::Srv(t) => {
+                            let t = *t as usize % self.nodes.len();
+                            if q.query_type == RecordType::SRV {
+                                m.add_answer(Record::from_rdata(node_name(i), 60, RData::SRV(SRV::new(1, 1, 443, node_name(t)))));
+                            }
+                            break;
+                        }
+                        Node::A => {
+                            if q.query_type == RecordType::A {
+                                m.add_answer(Record::from_rdata(node_name(i), 60, RData::A(A::new(192, 0, 2, i as u8))));
+                            }
+                            break;
+                        }
+                        Node::NoData => break,
+                        Node::NxDomain => {
+                            if m.answers.is_empty() {
+                                m.metadata.response_code = ResponseCode::NXDomain;
+                            }
+                            break;
+                        }
+                    }
+                }
+            }
+        }
+        stream::once(futures_util::future::ready(DnsResponse::from_message(m).map_err(NetError::from)))
+    }
+}
+
+fn stub_case() -> impl Strategy<Value = StubCase> {
+    let node = prop_oneof![
+        6 => (0u8..24).prop_map(Node::Cname),
+        2 => (0u8..24).prop_map(Node::Srv),
+        1 => Just(Node::A),
+        1 => Just(Node::NoData),
+        1 => Just(Node::NxDomain),
+    ];
+    // explicit chains of length 1..20 (optionally closed into a loop) next to arbitrary graphs
+    let chain = (1usize..=20, prop_oneof![Just(Node::A), Just(Node::NoData), Just(Node::NxDomain), (0u8..20).prop_map(Node::Cname)], any::<bool>()).prop_map(|(n, end, srv)| {
+        let mut v: Vec<Node> = (0..n).map(|i| if srv && i % 3 == 2 { Node::Srv(i as u8 + 1) } else { Node::Cname(i as u8 + 1) }).collect();
+        v.push(end);
+        v
+    });
+    (
+        prop_oneof![1 => vec(node, 1..=24), 1 => chain],
+        0u8..24,
+        prop_oneof![3 => Just(1u8), 2 => 2u8..=20],
+        prop::bool::weighted(0.3),
+        any::<bool>(),
+        any::<bool>(),
+    )
+        .prop_map(|(nodes, start, per_response, srv_query, preserve_intermediates, again)| StubCase {
+            nodes,
+            start,
+            per_response,
+            srv_query,
+            preserve_intermediates,
+            again,
+        })
+}
+
+fn stub_body(c: &StubCase, rec: &mut Rec) -> CaseResult {
+    let _crash = crash::enter(1, c);
+    let n = c.nodes.len();
+    let calls = Arc::new(AtomicU64::new(0));
+    let handle = Scripted {
+        nodes: Arc::new(c.nodes.clone()),
+        per_response: c.per_response.clamp(1, 20) as usize,
+        calls: calls.clone(),
+    };
+    let client = CachingClient::new(64, handle, c.preserve_intermediates);
+    let start = c.start as usize % n;
+    let qtype = if c.srv_query { RecordType::SRV } else { RecordType::A };
+
+    // structure of the alias graph from the start node (own walk)
+    let mut seen = BTreeSet::new();
+    let mut cur = start;
+    let mut looped = false;
+    let mut len = 0usize;
+    loop {
+        if !seen.insert(cur) {
+            looped = true;
+            break;
+        }
+        match &c.nodes[cur] {
+            Node::Cname(t) => cur = *t as usize % n,
+            Node::Srv(t) if c.srv_query => cur = *t as usize % n,
+            _ => break,
+        }
+        len += 1;
+    }
+
+    let rounds = if c.again { 2 } else { 1 };
+    for round in 0..rounds {
+        let before = calls.load(Ordering::SeqCst);
+        let res = futures_executor::block_on(client.lookup(Query::new(node_name(start), qtype), DnsRequestOptions::default()));
+        let used = calls.load(Ordering::SeqCst) - before;
+        // DepthTracker::MAX_QUERY_DEPTH = 8: at most 8 upstream queries per lookup, one of slack
+        vensure!(
+            used <= 9,
+            "stub-alias-chase-exceeds-depth-bound",
+            "lookup of n{start} {qtype} (round {round}) made {used} upstream queries on an alias graph of {n} nodes (chain length {len}, loop {looped})"
+        );
+        rec.class(format!("stub:{}", if res.is_ok() { "ok" } else { "err" }));
+        rec.class(format!("upstream-queries:{}", used.min(9)));
+    }
+    rec.class(if looped { "alias-loop" } else { "alias-chain" });
+    if len >= 8 {
+        rec.class("chain>=8");
+    }
+    if looped || len >= 1 {
+        rec.nontrivial();
+        if rec.wants_note() {
+            rec.note(format!("start n{start} {qtype}, per-response {}, chain length {len}, loop {looped}, nodes {:?}", c.per_response, c.nodes));
+        }
+    }
+    Ok(())
+}
+
+// ---------------------------------------------------------------------------------------------
 
 pub fn check() -> Option<Check> {
-    None
+    // ~0.15 ms per case on 16 threads: quick ~15 s + ~5 s, thorough ~7 min + ~1.5 min
+    let recursor = prop_hang("recursor", 100_000, 3_000_000, Duration::from_secs(60), |_tier| internet::net_case(), net_body);
+    let stub = prop_hang("stub_alias", 200_000, 4_000_000, Duration::from_secs(30), |_tier| stub_case(), stub_body);
+    Some(Check {
+        id: "C19",
+        level: "exploration",
+        rule: "recursor: random simulated internets (root + <=3 zone levels, <=2 NS per zone, NS host names in the zone / its parent / any other zone, glue or not, lame / dead / refusing / SERVFAIL servers, CNAME chains of 1..20 names and loops, optional server-side CNAME chasing, reply latency 0/7/150 ms steps) served over UDP by a reference authoritative model (RFC 1034 4.3.2) to the real Recursor on a discrete-event runtime; hostile servers append marked records whose owners lie outside every zone delegated to them (A for a victim name, NS+glue for a victim zone or the root, NS pointing at an attacker host, CNAME at a victim name, address for a victim zone's NS host) to the answer / authority / additional section of all, referral, positive or negative responses; recursion_limit and ns_recursion_limit in {2..6, 12, 24}; optional deny/allow lists for servers and answers; 1-4 queries (A/AAAA/NS/CNAME/TXT) then up to 8 follow-up queries for the victims on the same Recursor. Counted non-trivial when distinct and a poison record was actually delivered to the recursor, or the graph has a glueless / self-referential / cyclic delegation, a lame or dead server, or a CNAME loop. stub_alias: CachingClient over scripted CNAME/SRV alias graphs (chains 1..20, loops, 1..20 alias records per response); non-trivial = at least one alias hop.",
+        assumptions: vec![
+            "DNSSEC validation off (SecurityUnaware); UDP only (responses are small, no truncation, so TCP is never needed)",
+            "root hints point at working servers that carry the root zone; root servers are exempt from deny_server (they are explicit configuration)",
+            "a record counts as out-of-bailiwick poison only if its owner lies outside every zone delegated to the injecting server's address (a stricter per-exchange reading would call more records poison)",
+            "returned = the Message from resolve(), plus the SOA/authority records inside a negative RecursorError (a front end copies them into its response); the referral copy inside RecursorError::ForwardNS / NoRecords::ns is diagnostic and not judged",
+            "OS randomness seen by hickory (initial SRTT order, ids, ports, 0x20) is a deterministic stream seeded by the case (interposed getrandom)",
+            "Q_max = 3*(recursion_limit+1)*(ns_recursion_limit+1)*(zones+servers) datagrams per resolve() (observed maximum on the unchanged tree: 23); alias hops asked upstream <= recursion_limit+1; both detect explosive/unbounded recursion, not small excesses",
+            "a simulation deadlock (no timer, nothing runnable) is reported as harness-deadlock, an exhausted event budget (200k timer events) or a stack overflow as non-termination",
+        ],
+        subs: vec![recursor, stub],
+    })
 }
